@@ -4,6 +4,8 @@
    theorems that compare a creating and a reopening binary quantify over both pairs. *)
 From Brc.Model Require Import Base Config ConfigDb.
 From Brc.Proofs Require Import ConfigDbP.
+From Brc.Model Require Tie20.
+From Brc.Proofs Require Tie20P.
 From BrcGen Require Import Consts.
 
 (* A fresh run -- the path does not exist, or is an empty directory -- succeeds and records
@@ -80,3 +82,21 @@ Example C20_example :
   fst (validate_config_database (DB_VERSION + 1) PROTOCOL_VERSION (ex_cfg "signet" false) d1) = Err /\
   fst (validate_config_database DB_VERSION PROTOCOL_VERSION (ex_cfg "signet" false) d1) = Ok tt.
 Proof. vm_compute. auto. Qed.
+
+(* ---------------------------------------------------------------------------------------
+   The tie, as a theorem.  [Tie20.check_dcase] is the executable checker the correspondence
+   run evaluates on every prepared directory and real start().  In an accepted case the
+   model's start verdict is the implementation's, and when the REAL start() succeeded the
+   model's validation accepts the directory the harness read back - so by
+   [C20_reopen_iff_equal] a non-empty directory held the four rows of that configuration. *)
+Theorem C20_accepted_case_start_means_validation_passes :
+  forall (dbv pv : N) (c : Tie20.dcase),
+    Tie20.check_dcase dbv pv c = true ->
+    fst (start_model dbv pv (Tie20.dc_cfg c) (Tie20.dc_dir c)) = Tie20.dc_start_ok c /\
+    (Tie20.dc_start_ok c = true ->
+     fst (validate_config_database dbv pv (Tie20.dc_cfg c) (Tie20.dc_dir c)) = Ok tt).
+Proof.
+  exact (fun dbv pv c H => conj (Tie20P.check_dcase_start_verdict dbv pv c H)
+                                (Tie20P.check_dcase_start_ok dbv pv c H)).
+Qed.
+Print Assumptions C20_accepted_case_start_means_validation_passes.
